@@ -4,7 +4,7 @@ mapping is read from the evidence files of the last quick run, so it is what act
 import json, glob, os
 ROOT = os.path.dirname(os.path.dirname(os.path.abspath(__file__)))
 DESC = {
- "abandon": "XC: a library-level call polled k times and dropped with the target mailbox empty/saturated (kinds CS, DS, DSW, DST, PUB, PUBS, PULL, ACK, DT); the follow-up must match the model with the call completed OR never received; mon_abandon reads half-created, partial fan-out, wedged, deleted-but-listed, consumers not released",
+ "abandon": "XC: a library-level call polled k times and dropped with the target mailbox empty/saturated (kinds CS, CSP, DS, DSW, DST, PUB, PUBS, PULL, ACK, DT); the follow-up must match the model with the call completed OR never received; mon_abandon reads half-created, partial fan-out, wedged, deleted-but-listed, consumers not released",
  "big-ack": "one Acknowledge naming 1001..3000 deliveries of several Pull batches, then a drain",
  "big-chain": "two blocked Pulls and one Publish of 65535..131077 messages (model-free, mon_wait)",
  "burst": "random bursts of background calls around DeleteSubscription/DeleteTopic, all must complete (mon_no_hang)",
@@ -18,12 +18,12 @@ DESC = {
  "control-drain": "random control+data scripts with deletions/re-creations, drain epilogue",
  "control-enum": "ALL control-plane lifecycle sequences to depth 3 (thorough 4), bare and after a create, each with listing and a publish/pull probe",
  "control-random": "random control-plane scripts over a small name pool, two projects",
- "create-delete-race": "CreateSubscription and DeleteSubscription of one name in flight together at gRPC level (deterministic orders), incl. re-creation during the deletion",
+ "create-delete-race": "CreateSubscription and DeleteSubscription of one name in flight together at gRPC level (deterministic orders), incl. re-creation during the deletion, and a second delete while the first waits for the topic (XD2)",
  "data-enum": "ALL data-plane sequences over an 11-symbol alphabet to depth 3 (thorough 4) with STATS after every step",
  "data-random": "random data-plane scripts (publish, pull, ack, nack, modify, advance)",
  "data-stream-drain": "random unary+streaming scripts with a drain epilogue",
  "data-stream-random": "random unary+streaming scripts",
- "deadline-probes": "two coexisting leases per hand-out phase and ack deadline, probes 1 ms before/at/1 ms after each deadline, stale acks at the end, drain",
+ "deadline-probes": "two coexisting leases per hand-out phase and ack deadline, probes 1 ms before/at/1 ms after each deadline, stale acks at the end, drain; the same with a Publish and a Get reaching the subscription just before each probe",
  "deadline-pure": "AckDeadline::new and the ModifyAckDeadline seconds parser on every ms phase, k*65536+d, random (puresweep)",
  "delete-release": "blocked Pulls and open streams on a subscription that is deleted (directly / via its topic)",
  "expiry-load": "255..5000 leases running out at one instant while requests reach the actor in that scheduler round (SEQ ADV ;; STATS), drain",
@@ -52,6 +52,11 @@ DESC = {
  "stream-enum": "ALL streaming data-plane sequences to depth 3 (thorough 4)",
  "wait-enum": "all combinations of <=3 waiting consumers (unary/stream, limits incl. 0) x 5 event sequences",
  "wait-random": "random scripts with blocked Pulls (BG/JOIN) and open streams",
+ "subset-lists": "four live deliveries (one batch, or two batches 40 ms apart); ONE ack / nack / extension / streaming ack naming every ordered subset of 1..3 of them; both deadlines, drain",
+ "mixed-modify-wake": "consumers wait on an empty backlog while a stream holds three deliveries; one control message nacks some and extends others (every split)",
+ "boundary-counts": "a blocking Pull / a stream whose message count is 0, negative, a multiple of 65536 or an i32 limit on a subscription that HAS messages: answered at once",
+ "topicstress": "OS threads released from a spinning start line create topics at the same instant; one Publish per topic: ids pairwise distinct, each subscription gets its own (search only)",
+ "deletestress": "closed-loop publishers on one topic and a DeleteSubscription in their midst (deterministic scheduling): Publish calls completed before the deletion returns are bounded (search only)",
  "woken-dropped": "XH/XP: the unary handler woken, then polled k times with the mailbox pre-filled and dropped",
 }
 uses = {}
